@@ -50,6 +50,38 @@ func genC13(w *World, res *CheckResult) {
 						o2.Output = "the node is stamped with " + tok + " read at allocation time: the token after the construct, not the construct's own"
 					}
 					res.Obls = append(res.Obls, o2)
+					// the token is saved where the construct is recognised: in the block that saves it, the parser has
+					// not advanced (next / expect) before the save. Constructs whose own token comes after a consumed
+					// one (the name after '.', ...) are declared: `schema located-after-advance <Kind>` with the reason.
+					if ld := savedTokenLoad(a); ld != nil {
+						adv := ""
+						for _, bi := range ld.Block().Instrs {
+							if bi == ssa.Instruction(ld) {
+								break
+							}
+							if c, ok := bi.(ssa.CallInstruction); ok {
+								if cf, ok := c.Common().Value.(*ssa.Function); ok && (cf.Name() == "next" || cf.Name() == "expect") {
+									adv = cf.Name()
+								}
+							}
+						}
+						declared := false
+						if ct := w.Contracts[shortName(f)]; ct != nil {
+							for _, sc := range ct.Schemas {
+								if len(sc) >= 2 && sc[0] == "located-after-advance" && sc[1] == kind {
+									declared = true
+								}
+							}
+						}
+						o3 := &Obligation{Name: fmt.Sprintf("%s/alloc[%s#%d]/saved-before-advance", shortName(f), kind, cnt[kind]), Kind: "post", Expect: "unsat", Backend: "syntactic", Func: f.String(), Meta: map[string]string{}, Status: "discharged", Output: "the token is saved before the parser advances in that block"}
+						if declared {
+							o3.Output = "declared: the construct's own token follows a consumed one"
+						} else if adv != "" {
+							o3.Status = "undecided"
+							o3.Output = "the token is saved after p." + adv + "() in the same block: it is the token after the construct's own"
+						}
+						res.Obls = append(res.Obls, o3)
+					}
 				}
 				res.Obls = append(res.Obls, o)
 			}
@@ -79,6 +111,7 @@ func genC13(w *World, res *CheckResult) {
 	genC10(w, tmp)
 	res.Obls = append(res.Obls, selectObls(tmp.Obls, `^ast\.Patch\[`, `^module/rewrites-go-through-ast\.Patch$`)...)
 	genBuiltinErrorSite(w, res)
+	genErrorAtChild(w, res)
 	// (c2) errors the optimizer raises at compile time carry the location of the failing operation (cells of C02)
 	{
 		tmp2 := &CheckResult{Extra: map[string]interface{}{}}
@@ -137,6 +170,75 @@ func setLocationOf(a *ssa.Alloc) string {
 		}
 	}
 	return ""
+}
+
+// savedTokenLoad: the load of p.<field> (a lexer.Token) whose Location is the argument of the SetLocation call on
+// alloc a, when the token was saved in a local before; nil if the shape is another.
+func savedTokenLoad(a *ssa.Alloc) *ssa.UnOp {
+	var call *ssa.Call
+	var find func(v ssa.Value, depth int)
+	find = func(v ssa.Value, depth int) {
+		if call != nil || depth > 3 || v.Referrers() == nil {
+			return
+		}
+		for _, r := range *v.Referrers() {
+			switch y := r.(type) {
+			case *ssa.Call:
+				if callIsSetLocation(y) && locArg(y) == "token.Location" {
+					call = y
+					return
+				}
+			case *ssa.MakeInterface:
+				find(y, depth+1)
+			case *ssa.Phi:
+				find(y, depth+1)
+			case *ssa.FieldAddr:
+				if y.Field == 0 {
+					find(y, depth+1)
+				}
+			}
+		}
+	}
+	find(a, 0)
+	if call == nil {
+		return nil
+	}
+	isTokLoad := func(v ssa.Value) *ssa.UnOp {
+		u, ok := v.(*ssa.UnOp)
+		if !ok {
+			return nil
+		}
+		fa, ok := u.X.(*ssa.FieldAddr)
+		if !ok {
+			return nil
+		}
+		if _, isParam := fa.X.(*ssa.Parameter); !isParam {
+			return nil
+		}
+		return u
+	}
+	args := call.Call.Args
+	switch x := args[len(args)-1].(type) {
+	case *ssa.Field:
+		return isTokLoad(x.X)
+	case *ssa.UnOp:
+		if fa, ok := x.X.(*ssa.FieldAddr); ok {
+			if al, ok := fa.X.(*ssa.Alloc); ok && al.Referrers() != nil {
+				var ld *ssa.UnOp
+				n := 0
+				for _, r := range *al.Referrers() {
+					if st, ok := r.(*ssa.Store); ok && st.Addr == ssa.Value(al) {
+						n++
+						ld = isTokLoad(st.Val)
+					}
+				}
+				if n == 1 {
+					return ld
+				}
+			}
+		}
+	}
+	return nil
 }
 
 func callIsSetLocation(c *ssa.Call) bool {
